@@ -17,10 +17,13 @@
      compared with `body_size > max` -> `TooLarge` (413); then `http_body_util::Limited` (limited.rs:44-55):
      per data frame `if data.remaining() > remaining { error } else { remaining -= len }` -> `Stream` (500).
      Only the size decision is modelled; the first-frame sniffing / malformed bodies belong to C19 (HttpGate.v).
-   * the bytes of the rejection: -32007 frame on WS, 413 body and 500 body on HTTP.
+   * the bytes of the rejection: the reject_too_big_request frame on WS, 413 body and 500 body on HTTP; code, message
+     and data prefix of the error objects are NOT written here: `reject_too_big_request_shape` /
+     `from_internal_error_shape` of Gen/ErrorConstsGen.v (regenerated from types/src/error.rs), through Model/ErrShape.v.
 
    Left out: ping/pong, connection close, graceful stop, the HTTP method / content-type gate (C19), hyper. *)
-From JV Require Import Base.Bytes Base.Dec Json.Json Json.JsonSer Model.Wire Gen.LimitsWiringGen.
+From JV Require Import Base.Bytes Base.Dec Json.Json Json.JsonSer Model.Wire Model.ErrShape Gen.LimitsWiringGen
+  Gen.ErrorConstsGen.
 Local Open Scope N_scope.
 
 Definition u32_max : N := 4294967295.
@@ -32,7 +35,7 @@ Definition soketto_accepts (max_message_size length : N) : bool := negb (max_mes
 
 Inductive ws_ev :=
 | EvDispatched (n : N)          (* message of n bytes handed to handle_rpc_call *)
-| EvTooBig (reported : N)       (* -32007 "Request is too big" frame, data "Exceeded max limit of <reported>" *)
+| EvTooBig (reported : N)       (* the reject_too_big_request(reported) frame, id null *)
 | EvClosed.                     (* loop left: Shutdown::ConnectionClosed *)
 
 (* the receive loop of background_task over the sizes of the incoming (single-frame) messages *)
@@ -91,10 +94,8 @@ Definition http_processed (e : ep) (c : cfg) (cl : option N) (frames : list N) :
 Definition sum_frames (frames : list N) : N := fold_right N.add 0 frames.
 
 (* ---------- the bytes of the rejections ---------- *)
-Definition exceeded_data (limit : N) : bytes := ser_str (b#"Exceeded max limit of " ++ print_N limit).
-
-Definition too_big_request_error (limit : N) : errobj :=
-  {| e_code := (-32007)%Z; e_message := b#"Request is too big"; e_data := Some (exceeded_data limit) |}.
+(* reject_too_big_request(limit) *)
+Definition too_big_request_error (limit : N) : errobj := shape_err reject_too_big_request_shape limit.
 
 Definition null_error_response (e : errobj) : bytes :=
   ser_response {| rs_jsonrpc := true; rs_payload := PError e; rs_id := IdNull |}.
@@ -103,7 +104,7 @@ Definition null_error_response (e : errobj) : bytes :=
 Definition too_big_request_frame (limit : N) : bytes := null_error_response (too_big_request_error limit).
 (* http::response::internal_error() *)
 Definition internal_error_body : bytes :=
-  null_error_response {| e_code := (-32603)%Z; e_message := b#"Internal error"; e_data := None |}.
+  null_error_response (fixed_err from_internal_error_shape).   (* ErrorCode::InternalError *)
 
 Definition http_status (r : http_res) : N :=
   match r with HProcessed => 200 | HTooLarge413 _ => 413 | HStream500 => 500 end.
@@ -128,7 +129,7 @@ Definition http_reject_body (r : http_res) : option bytes :=
 Record pmsg := { pm_id : N; pm_size : N }.
 
 Inductive preply :=
-| PRejected (reported : N)      (* the -32007 frame, id null, data "Exceeded max limit of <reported>" *)
+| PRejected (reported : N)      (* the reject_too_big_request(reported) frame, id null *)
 | PAnswered (id : N).           (* the normal outcome of the in-limit message <id> *)
 
 (* what one message is answered with, taken alone *)
